@@ -21,6 +21,8 @@ pub enum Flavour {
     DropErr,
     /// Ordinary system returning `WarnErr`; returns `Err` after queuing its commands.
     WarnErr,
+    /// Exclusive system returning `WarnErr`; returns `Err` after applying its commands on some runs.
+    ExclErr,
     /// The zero-sized `fn` item `exec::zst_body` (no captured state): every registration of it is the *same*
     /// function type, so only the framework keeps their system states apart.
     Zst,
@@ -444,6 +446,9 @@ pub fn gen_bundle(r: &mut Rng, p: &Profile, min: usize) -> Vec<Trig> {
 pub fn gen_flavour(r: &mut Rng, p: &Profile) -> Flavour {
     if r.chance(p.zst_pct) {
         return Flavour::Zst;
+    }
+    if r.chance(5) {
+        return Flavour::ExclErr;
     }
     match weighted(r, &p.flavour_w) {
         0 => Flavour::Ord,
